@@ -144,7 +144,7 @@ impl From<PageToken> for usize {
 //@ closure 1 ret e: Status
 //@ closure 1 ensures e.code == Code::InvalidArgument
 //@ closure 2 ret o: usize
-//@ closure 2 ensures o == p.v()
+//@ closure 2 ensures o == $1.v()
 //@end
 
 // ======================================================================================
